@@ -117,6 +117,7 @@ type expOpts struct {
 	Cache                    spec.ResolutionCache
 	Base                     string // spelling of the root location; default = world.Root
 	NoBase                   bool   // no location given: the library anchors the in-memory root at <cwd>/.root
+	ReuseOpts                bool   // the SAME option structure was used for an expansion of the same world just before
 }
 
 func (o expOpts) String() string {
@@ -160,7 +161,16 @@ func expandWorld(w *refgraph.World, o expOpts) expandResult {
 	}
 	opts := &spec.ExpandOptions{RelativeBase: base, SkipSchemas: o.Skip, ContinueOnError: o.Continue, AbsoluteCircularRef: o.Absolute,
 		PathLoader: loaderFor(w, log, o.Refuse)}
+	if o.ReuseOpts {
+		if first, err := decodeSwagger(w.Docs[w.Root]); err == nil {
+			_, _ = timed(20*time.Second, func() { _ = spec.ExpandSpec(first, opts) })
+			log.urls = nil
+		}
+	}
 	res.Panic, res.Hang = timed(20*time.Second, func() { res.Err = spec.ExpandSpec(sw, opts) })
+	if o.ReuseOpts && opts.RelativeBase != base && res.Err == nil {
+		res.Err = fmt.Errorf("the caller's options were modified: RelativeBase %q became %q", base, opts.RelativeBase)
+	}
 	res.Loads = log.list()
 	if res.Panic != "" || res.Hang || res.Err != nil {
 		return res
@@ -328,6 +338,13 @@ func runC02C03(c *Ctx, which string) {
 				}
 			}
 			continue
+		}
+		if len(w.Docs) > 1 && i%5 == 3 {
+			// the caller keeps one option structure for all its calls: an earlier expansion with it (which walked through
+			// the other documents) has no bearing on this one
+			o.ReuseOpts = true
+			cs["options"] = o.String() + " options-reused"
+			c.Hit("options-reused")
 		}
 		if len(w.Docs) == 1 && i%5 == 2 {
 			// no location given at all: same statements, with the in-memory root at the library's pseudo location
